@@ -339,4 +339,141 @@ theorem handleGrep_ts {cfg : Cfg} {m m' : M} {l : L} {b : Bool} (g : Good m) (hg
       (timeline_direct_emit m _ hq.1 hq.2) rfl (Or.inr rfl) (Or.inr (by simp [Unif, isHunkHeader]))
   · cases e; exact TS.quiet rfl (timeline_emit m) (Or.inl rfl)
 
+-- hunk lines ------------------------------------------------------------------
+
+theorem hunkDiffType_unif {s : State} (hh : isHunkState s = true) (hu : Unif s) : hunkDiffType s = some .unified := by
+  cases s <;> simp_all [isHunkState, Unif, hunkDiffType]
+
+/-- with markers kept and tab width 0 the painted hunk line is the visible text of the input line -/
+theorem classifyUnified_text {cfg : Cfg} (ps : Preset cfg) {l : L} {k : LineKind} {dt : DiffType}
+    (h : classifyUnified l = some (k, dt)) :
+    dt = .unified ∧ paintedPrefix cfg k .unified ++ prepare cfg 1 l = l.text := by
+  unfold classifyUnified at h
+  cases ht : l.text with
+  | nil => simp [ht] at h
+  | cons c rest =>
+    have hprep : ∀ (hc : c.toNat < 128), prepare cfg 1 l = rest := by
+      intro hc
+      unfold prepare; simp [ht, hc, Text.expand, ps.tab0]
+    simp only [ht, List.head?_cons] at h
+    split at h
+    · rename_i hc; cases hc; cases h
+      exact ⟨rfl, by rw [hprep (by decide)]; simp [paintedPrefix, ps.keep]⟩
+    · rename_i hc; cases hc; cases h
+      exact ⟨rfl, by rw [hprep (by decide)]; simp [paintedPrefix, ps.keep]⟩
+    · rename_i hc; cases hc; cases h
+      exact ⟨rfl, by rw [hprep (by decide)]; simp [paintedPrefix, ps.keep]⟩
+    · cases h
+
+theorem hunkLinePush_ps {cfg : Cfg} (ps : Preset cfg) {m m' : M} {l : L} (hh : isHunkState m.st = true)
+    (hu : Unif m.st) (hplus : isHunkPlus m.st = false → m.plus = []) (e : hunkLinePush cfg m l = .ok m') :
+    (∃ r : Row, timeline m' = timeline m ++ [r] ∧ r.src = m.n ∧ (r.text = l.raw ∨ r.text = l.text)) ∧
+      Unif m'.st ∧ isHunkHeader m'.st = false ∧ m'.n = m.n := by
+  unfold hunkLinePush at e
+  have hn : newLineState m.st l = .ok (classifyUnified l) := by
+    unfold newLineState; rw [hunkDiffType_unif hh hu]
+  rw [hn] at e
+  cases hc : classifyUnified l with
+  | none =>
+    simp only [hc] at e
+    cases e
+    refine ⟨⟨{ kind := .other, text := Text.expand cfg.tab l.raw, src := m.n }, ?_, rfl, Or.inl ?_⟩, by simp [Unif], rfl, by simp⟩
+    · rw [timeline_of_flushed m]; simp [timeline]
+    · simp [Text.expand, ps.tab0]
+  | some p =>
+    obtain ⟨k, dt⟩ := p
+    obtain ⟨hdt, htext⟩ := classifyUnified_text ps hc
+    subst hdt
+    simp only [hc, nParents] at e
+    cases k with
+    | minus =>
+      simp only at e
+      cases e
+      cases hpl : isHunkPlus m.st
+      · have hp0 := hplus hpl
+        simp only [Bool.false_eq_true, if_false]
+        refine ⟨⟨HLine.row { kind := .minus, pre := paintedPrefix cfg .minus .unified, text := prepare cfg 1 l, src := m.n },
+            ?_, rfl, Or.inr htext⟩, by simp [Unif], by first | rfl | trivial | simp [isHunkHeader], by first | rfl | trivial | simp⟩
+        simp [timeline, hp0]
+      · simp only [if_true]
+        refine ⟨⟨HLine.row { kind := .minus, pre := paintedPrefix cfg .minus .unified, text := prepare cfg 1 l, src := m.n },
+            ?_, rfl, Or.inr htext⟩, by simp [Unif], by first | rfl | trivial | simp [isHunkHeader], by first | rfl | trivial | simp⟩
+        rw [timeline_of_flushed m]; simp [timeline]
+    | plus =>
+      simp only at e
+      cases e
+      refine ⟨⟨HLine.row { kind := .plus, pre := paintedPrefix cfg .plus .unified, text := prepare cfg 1 l, src := m.n },
+          ?_, rfl, Or.inr htext⟩, by simp [Unif], by first | rfl | trivial | simp [isHunkHeader], by first | rfl | trivial | simp⟩
+      simp [timeline]
+    | zero =>
+      simp only at e
+      cases e
+      refine ⟨⟨{ kind := .zero, text := paintedPrefix cfg .zero .unified ++ prepare cfg 1 l, src := m.n },
+          ?_, rfl, Or.inr htext⟩, by simp [Unif], by first | rfl | trivial | simp [isHunkHeader], by first | rfl | trivial | simp⟩
+      rw [timeline_of_flushed m]; simp [timeline]
+
+/-- the first part of `handle_hunk_line` with a raw hunk-header style: the pending header becomes one
+raw row carrying the stored raw header line -/
+theorem hunkLinePre_ps {cfg : Cfg} (ps : Preset cfg) {m m2 : M} {l : L} (e : hunkLinePre cfg m = .ok m2) :
+    (∃ pre, timeline m2 = timeline m ++ pre ∧ ∀ r ∈ pre, NewOK l m r) ∧ m2.st = m.st ∧ m2.n = m.n := by
+  unfold hunkLinePre at e
+  simp only at e
+  have hx : Same m (if m.minus.length > cfg.bufSize ∨ m.plus.length > cfg.bufSize then flushMP m else m) := by
+    split
+    · exact (Same.refl m).flushMP
+    · exact Same.refl m
+  generalize (if m.minus.length > cfg.bufSize ∨ m.plus.length > cfg.bufSize then flushMP m else m) = x at e hx
+  split at e
+  · rename_i dt hh line raw src hst
+    unfold emitHunkHeader hunkHeaderRows at e
+    simp only [ps.hhRaw, if_true, ps.nf.2.2.2, ne_eq, not_true_eq_false, if_false, List.nil_append] at e
+    cases e
+    rw [drawRows_raw_none _ _ _ _ _ _ ps.hhRaw ps.nf.2.2.2]
+    refine ⟨⟨[{ kind := .raw, text := raw, src := src }], ?_, ?_⟩, ?_, ?_⟩
+    · rw [timeline_direct_flushed, hx.tl]
+    · intro r hr; simp at hr; subst hr
+      exact Or.inr ⟨dt, hh, line, raw, src, hx.st ▸ hst, rfl, rfl⟩
+    · rw [direct_st, emit_st, flushMP_st]; exact hx.st
+    · rw [direct_n, emit_n, flushMP_n]; exact hx.n
+  · cases e
+    exact ⟨⟨[], by simp [hx.tl], by simp⟩, hx.st, hx.n⟩
+
+theorem handleHunkLine_ts {cfg : Cfg} {m m' : M} {l : L} {b : Bool} (ps : Preset cfg) (g : Good m)
+    (hu : Unif m.st) (e : handleHunkLine cfg m l = .ok (b, m')) : TS l m m' := by
+  unfold handleHunkLine at e
+  split at e
+  · cases e; exact TS.refl l m
+  · rename_i hst
+    have hs' : isHunkState m.st = true := by simpa using hst
+    split at e
+    · cases e
+    · rename_i m2 e2
+      split at e
+      · cases e
+      · rename_i m3 e3
+        cases e
+        obtain ⟨⟨pre, htl2, hpre⟩, hst2, hn2⟩ := hunkLinePre_ps (l := l) ps e2
+        obtain ⟨r2, _, hhdr, _, _⟩ := hunkLinePre_spec e2 g
+        have hplus : isHunkPlus m2.st = false → m2.plus = [] := by
+          intro hnp
+          rw [hst2] at hnp
+          rcases isHunkState_cases hs' with h | ⟨dt, h⟩ | ⟨dt, h⟩ | ⟨dt, h⟩
+          · exact (hhdr h).2
+          · have := (g.quiet (by rw [h]; rfl)).2
+            rcases r2.shrink.2 with s | s <;> simp [s, this]
+          · have := g.noPlus (by rw [h]; rfl)
+            rcases r2.shrink.2 with s | s <;> simp [s, this]
+          · rw [h] at hnp; simp [isHunkPlus] at hnp
+        obtain ⟨⟨r, htl3, hrsrc, hrtx⟩, hu3, hnh3, hn3⟩ :=
+          hunkLinePush_ps ps (by rw [hst2]; exact hs') (by rw [hst2]; exact hu) hplus e3
+        refine ⟨by rw [emit_n, hn3, hn2], ⟨pre ++ [r], ?_, ?_⟩, ?_, fun _ => hu3⟩
+        · rw [timeline_emit, htl3, htl2, List.append_assoc]
+        · intro x hx
+          rcases List.mem_append.mp hx with h | h
+          · exact hpre x h
+          · simp at h; subst h
+            exact Or.inl ⟨hrsrc.trans hn2, hrtx⟩
+        · intro dt hh line raw src h
+          rw [emit_st] at h; rw [h] at hnh3; simp [isHunkHeader] at hnh3
+
 end Machine
